@@ -139,7 +139,10 @@ Definition r_vitem (v : vitem) : string :=
 Definition r_view (v : view) : string :=
   "VIEW " ++ v_name v ++ " "
   ++ r_paren (map r_vitem (v_items v)
-              +++ ["PRIMARY KEY (" ++ r_paren (v_pk v) ++ match v_cc v with [] => "" | _ => ", " ++ sep ", " (v_cc v) end ++ ")"])
+              +++ ["PRIMARY KEY (" ++ match v_pk v with
+                                      | [] => sep ", " (v_cc v)      (* no partition key group *)
+                                      | _ => r_paren (v_pk v) ++ match v_cc v with [] => "" | _ => ", " ++ sep ", " (v_cc v) end
+                                      end ++ ")"])
   ++ " AS RESULT OF " ++ r_qref (v_of v).
 
 Definition r_engine (wasm : bool) (s : string) : string :=
@@ -298,6 +301,8 @@ Record mode := Mode { m_uniq_per_type : bool; m_nested_inherit : bool; m_view_re
 Definition Ideal : mode := Mode true true true false.
 Definition Go : mode := Mode parser_uniques_numbered_per_type parser_nested_tables_inherit parser_view_refs_recorded true.
 Definition GoBefore : mode := Mode false false false true.
+
+Record pchecks := PChecks { ck_view_pk : bool; ck_grant_class : bool }.
 
 (* ---- leaf translations (shared by the reference compiler and by the declarative spec) ---- *)
 
@@ -948,6 +953,100 @@ Definition wf : bool :=
   && nodup_b String.eqb (map (fun i => snd (item_key i)) (compile_items Ideal))
   && no_unique_collision Ideal
   && forallb (fun pw => ws_ok (fst pw) (snd pw)) all_ws.
+
+(* ---- the same rules with two of them optional: what the analyser checks itself.  A view needs a
+   partition key and `... ON ALL <class>` needs something of the class in the workspace, but only
+   builder.Build() says so (findings C16-F6, C16-F7); `ck` says which of the two the analyser checks ---- *)
+Definition view_ok_p (ck : pchecks) (p : pkg) (w : ws) (v : view) : bool :=
+  let pn := p_name p in
+  nodup_b String.eqb (map vitem_name (v_items v))
+  && forallb (fun i => match i with
+                       | VField _ ty _ => len_ok ty && negb (match ty with DBlob => true | _ => false end)
+                       | VRef _ refs _ => forallb (fun r => in_scope p w s_concrete_tables (resolve pn r)) refs
+                       end) (v_items v)
+  && (negb (ck_view_pk ck) || negb (match v_pk v with [] => true | _ => false end)) && negb (match v_cc v with [] => true | _ => false end)
+  && nodup_b String.eqb (v_pk v +++ v_cc v)
+  && forallb (fun n => match find_vitem v n with Some i => negb (is_varlen i) && key_type_ok i | None => false end) (v_pk v)
+  && forallb (fun n => match find_vitem v n with Some i => key_type_ok i | None => false end) (v_cc v)
+  && forallb (fun n => match find_vitem v n with Some i => negb (is_varlen i) | None => false end) (all_but_last (v_cc v))
+  && in_scope p w s_projs (resolve pn (v_of v))
+  (* the projector named by AS RESULT OF declares the view among its intents *)
+  && existsb (fun pw => existsb (fun i => match i with
+                                          | IProj x => (pj_name x =? qr_name (v_of v))
+                                                       && existsb (fun q => (qr_name q =? v_name v) && ((qr_pkg q =? "") || (qr_pkg q =? pn))) (pj_intents x)
+                                          | _ => false end) (w_items (snd pw))) (vis_ws p w).
+
+
+Definition grant_ok_p (ck : pchecks) (p : pkg) (w : ws) (g : grant) : bool :=
+  let pn := p_name p in
+  in_scope p w s_roles (resolve pn (g_role g))
+  && match g_what g with
+     | GRole r => in_scope p w s_roles (resolve pn r) && negb (g_revoke g)
+     | GExecCmd c => in_scope p w s_cmds (resolve pn c)
+     | GExecQuery q => in_scope p w s_queries (resolve pn q)
+     | GSelectView v cols => in_scope p w s_views (resolve pn v) && forallb (fun c => mem_s c (view_cols p w (resolve pn v))) cols
+     | GAllCommands => negb (ck_grant_class ck) || local_nonempty s_cmds w
+     | GAllQueries => negb (ck_grant_class ck) || local_nonempty s_queries w
+     | GAllViews => negb (ck_grant_class ck) || local_nonempty s_views w
+     | GAllTables None => negb (ck_grant_class ck) || negb (w_abstract w) || local_nonempty s_tables w
+     | GAllTables (Some acts) => (negb (ck_grant_class ck) || negb (w_abstract w) || local_nonempty s_tables w)
+                                 && negb (match acts with [] => true | _ => false end) && forallb (fun o => mem_op o record_ops) acts
+     | GTableAll t cols => in_scope p w s_tables (resolve pn t) && forallb (fun c => mem_s c (table_cols p w (resolve pn t))) cols
+     | GTable t acts =>
+       in_scope p w s_tables (resolve pn t) && negb (match acts with [] => true | _ => false end)
+       && forallb (fun x => mem_op (fst x) record_ops
+                            && forallb (fun c => mem_s c (table_cols p w (resolve pn t)) || mem_s c sys_cols) (snd x)) acts
+     end.
+
+
+Definition stmt_ok_p (ck : pchecks) (p : pkg) (w : ws) (i : wsitem) : bool :=
+  match i with
+  | ITable t => table_ok p w t
+  | IType _ ys => yitems_ok p w ys
+  | IView v => view_ok_p ck p w v
+  | IProj x => proj_ok p w x
+  | IFunc f => func_ok p w f
+  | IRole _ _ => true
+  | IRate r => rate_ok r
+  | ILimit l => limit_ok p w l
+  | IGrant g => grant_ok_p ck p w g
+  | IUse n => match lookup_ws (p_name p, n) with Some (_, w') => negb (w_abstract w') | None => false end
+  end.
+
+
+Definition ws_ok_p (ck : pchecks) (p : pkg) (w : ws) : bool :=
+  (* INHERITS: abstract workspaces of this or a later (imported) package, acyclic *)
+  match ws_anc fuelw (p_name p) (w_inh w) with Some _ => true | None => false end
+  && forallb (fun q => let r := resolve (p_name p) q in (fst r =? p_name p) || mem_s (fst r) (pkgs_after a (p_name p))) (w_inh w)
+  (* the INHERITS list of a workspace is re-resolved in the package of every workspace that
+     inherits it: only package-qualified names mean the same everywhere *)
+  && forallb (fun q => negb (qr_pkg q =? "")) (w_inh w)
+  && forallb (fun q => match lookup_ws (resolve (p_name p) q) with Some (_, w') => w_abstract w' | None => false end) (w_inh w)
+  (* checkChain keeps every INHERITS reference it has walked below one direct ancestor and calls a
+     second visit "circular": below each direct ancestor no workspace that itself INHERITS may be
+     reachable along two paths (a diamond is refused as soon as it has an heir) *)
+  && forallb (fun q => match ws_anc fuelw (p_name p) [q] with
+                       | Some l => nodup_b qname_eqb (filter (fun x => match lookup_ws x with
+                                                                       | Some (_, w') => negb (match w_inh w' with [] => true | _ => false end)
+                                                                       | None => false end) l)
+                       | None => false
+                       end) (w_inh w)
+  && (negb (w_abstract w) || match w_desc w with None => true | Some _ => false end)
+  && match w_desc w with Some fs => forallb (field_ok true) fs && nodup_b String.eqb (map f_name fs) | None => true end
+  && grants_before_revokes false (w_items w)
+  && forallb (stmt_ok_p ck p w) (w_items w).
+
+
+Definition wf_p (ck : pchecks) : bool :=
+  negb (match a with [] => true | _ => false end)
+  && nodup_b String.eqb (map p_name a) && negb (mem_s "sys" (map p_name a))
+  && nodup_b qname_eqb (map item_key (compile_items Ideal))
+  (* a qualified name is looked up in the current workspace first, whatever its package: entity
+     names are kept distinct over the whole application *)
+  && nodup_b String.eqb (map (fun i => snd (item_key i)) (compile_items Ideal))
+  && no_unique_collision Ideal
+  && forallb (fun pw => ws_ok_p ck (fst pw) (snd pw)) all_ws.
+
 
 (* nested tables that inherit a user table (the shape finding F24 was about) *)
 Definition no_nested_user_inherit : bool :=
